@@ -225,9 +225,9 @@ def run_models(rep: Report, tier: str, workers: Any = "auto") -> List[dict]:
     # TLC's emission order depends on worker scheduling: canonical order (cache key, sample choice, ids)
     import json
     records.sort(key=lambda r: json.dumps(r, sort_keys=True))
-    if dev_mod() > 1:
+    if dev_mod() > 1 or tier != "thorough":
         return records
-    # eager cross-check of the lazy-table argument on a scope small enough to enumerate every table
+    # (thorough tier only) eager cross-check of the lazy-table argument on a scope small enough to enumerate every table
     e = run_tlc("FixLoop", cfg_text(constants={"K": 3, "NR": 2, "Limits": {3}, "Lazy": False, "Sticky": True, "EmitRecs": False,
                                                "EmitMod": 1, "Phases": {"main"}, "Compats": {True}}, invariants=SAFETY),
                 timeout=3000, workers=workers, heap="8g")
